@@ -16,7 +16,7 @@ $DEMO > $B/demo_build.log 2>&1 || { echo "demo does not build on clean tree"; ta
 ( cd $B && timeout 300 ./demo$M > demo_clean.log 2>&1 ); echo "demo on clean tree: exit=$?"
 git apply $WT/out/mut$M.diff || { echo "PATCH DOES NOT APPLY"; exit 1; }
 cmake --build $B -j6 > $B/build.log 2>&1 || { echo "BUILD WITH CHANGE FAILED"; tail -20 $B/build.log; }
-( cd $B && timeout 600 ./test/st_gtests 2>&1 | tail -3 ); echo "test suite with change: exit=$?"
+( cd $B && timeout 600 ./test/st_gtests > tests.log 2>&1; echo "test suite with change: exit=$?"; tail -3 tests.log )
 $DEMO > $B/demo_build2.log 2>&1 || { echo "demo does not build with change"; }
 ( cd $B && timeout 300 ./demo$M > demo_mut.log 2>&1 ); echo "demo with change: exit=$?"
 tail -5 $B/demo_mut.log
